@@ -47,9 +47,13 @@ REAL = ["pox.lib.recoco Scheduler (run, cycle, callLater, schedule, "
         "_select), Lock", "pox.core call_later / raiseLater",
         "pox.lib.revent"]
 STUBBED = ["threading.Thread/Lock/Event, queue.Queue (simkit.cthreads, "
-           "engine-controlled)", "select/pinger/time (simkit)"]
+           "engine-controlled)", "select/time (simkit)", "pinger: half of the "
+           "runs the real pox.lib.util PipePinger over a simulated os.pipe "
+           "(pre-empted inside ping/pong), the other half a level-triggered "
+           "stand-in"]
 EXPECT_PROBES = ["w1", "w2", "w3", "w4", "hub_inline", "hub_threaded",
-                 "policy_random", "policy_pct", "switch_in_recoco"]
+                 "policy_random", "policy_pct", "switch_in_recoco",
+                 "real_pinger"]
 
 
 def gen_plan(seed, tier):
@@ -59,7 +63,11 @@ def gen_plan(seed, tier):
          "policy": r.pick(["random", "random", "pct"]),
          "switch_p": r.pick([0.05, 0.15, 0.3, 0.6]),
          "pct_depth": r.randint(1, 4),
-         "idle_tasks": r.randint(0, 2)}
+         "idle_tasks": r.randint(0, 2),
+         # keep pox.lib.util's own PipePinger (seam at os.pipe/read/write,
+         # pre-emption inside its methods) instead of the level-triggered
+         # stand-in
+         "real_pinger": r.chance(0.5)}
   steps = []
   if w == "w1":
     for i in range(r.randint(2, 3)):
@@ -100,11 +108,17 @@ class Violation(Exception):
 def run_plan(plan):
   cfg = plan["cfg"]
   sim = S.Sim(mix(plan["seed"], "run"), calm=plan.get("calm", False))
-  S.install(sim)
+  rp = bool(cfg.get("real_pinger"))
+  S.install(sim, real_pinger=rp)
   res = {"verdict": "ok"}
   world = ThreadsWorld(sim, cfg)
   try:
-    eng = world.boot()
+    if rp:
+      eng = world.boot(trace_files=("pox/lib/recoco/recoco.py",
+                                    "pox/lib/util.py"))
+      sim.probes["real_pinger"] += 1
+    else:
+      eng = world.boot()
     sim.probes[cfg["workload"]] += 1
     sim.probes["hub_threaded" if cfg["threaded_hub"] else "hub_inline"] += 1
     sim.probes["policy_" + cfg["policy"]] += 1
